@@ -611,7 +611,32 @@ func c04(c *Ctx) {
 			continue
 		}
 		g := ix.FG(fn)
-		isA := func(e ast.Expr) bool { return isField(info, e, fA) }
+		isAField := func(e ast.Expr) bool { return isField(info, e, fA) }
+		// the attributes being capped: the record's own field, or the expression that is stored into it whole on the keep-all
+		// path (X.Attributes = src — the caller's slice before it is copied over)
+		srcKeys := map[string]bool{}
+		inspectNoLit(fn.Body(), func(n ast.Node) bool {
+			as, ok := n.(*ast.AssignStmt)
+			if !ok || len(as.Lhs) != len(as.Rhs) {
+				return true
+			}
+			for i, l := range as.Lhs {
+				if !isAField(l) {
+					continue
+				}
+				if k := pathKey(info, as.Rhs[i]); k != "" && !isAField(as.Rhs[i]) {
+					srcKeys[k] = true
+				}
+			}
+			return true
+		})
+		isA := func(e ast.Expr) bool {
+			if isAField(e) {
+				return true
+			}
+			k := pathKey(info, e)
+			return k != "" && srcKeys[k]
+		}
 		// the limit variable: assigned from …spanLimits.<limitField>
 		var limitVar types.Object
 		inspectNoLit(fn.Body(), func(n ast.Node) bool {
@@ -664,7 +689,7 @@ func c04(c *Ctx) {
 			return r != nil && ok && be.Op == token.SUB && isLenOf(info, be.X, isA) && isLimit(be.Y)
 		}))
 		cut := toSet(g.Match(func(n ast.Node) bool {
-			r := assignRHS(n, isA)
+			r := assignRHS(n, isAField)
 			if r == nil {
 				return false
 			}
@@ -676,10 +701,10 @@ func c04(c *Ctx) {
 			return r != nil && isLenOf(info, r, isA)
 		}))
 		empty := toSet(g.Match(func(n ast.Node) bool {
-			r := assignRHS(n, isA)
-			return r != nil && isEmptySliceExpr(info, r)
+			r := assignRHS(n, isAField)
+			return r != nil && (isEmptySliceExpr(info, r) || isNilIdent(info, r))
 		}))
-		anyA := toSet(g.Match(func(n ast.Node) bool { return assignRHS(n, isA) != nil }))
+		anyA := toSet(g.Match(func(n ast.Node) bool { return assignRHS(n, isAField) != nil }))
 		check := func(name string, edge func(*GEdge) bool, count, shrink map[*GNode]bool) {
 			n, good := 0, true
 			why := ""
@@ -692,7 +717,8 @@ func c04(c *Ctx) {
 					// count before any change of Attributes; then shrink before exit
 					s1, p1 := g.ReachFromEdge(e, func(y *GNode) bool { return count[y] })
 					for y := range s1 {
-						if y == g.Exit || anyA[y] {
+						// (a parallel assignment that takes the count and cuts in one statement reads the uncut slice for both)
+						if y == g.Exit || (anyA[y] && !count[y]) {
 							good = false
 							why = "count not computed first: " + g.pathLines(p1, y)
 						}
